@@ -397,13 +397,22 @@ let exec (op : string) : unit =
     | [ "clearlong" ] -> "ok"
     | [ "key" ] -> with_board (fun b -> key_spec b; Printf.sprintf "key %016Lx" (u64_of_n b.hash))
     | [ "sctx"; d ] -> sdepth := int_of_string d; "ok"
+    | "searchx" :: _ -> "SKIP"   (* decided by the harness against its own plain minimax *)
     | ("search" | "sched") :: _ ->
         (* oracle: exact minimax; the implementation's (score, move) is checked against
            `=search` by the comparer: score equal, move among the moves attaining it *)
         with_board (fun b ->
             let tag = List.hd toks in
             if !sdepth < 1 then tag ^ " Err DepthTooLow"
-            else match root_values tbl rk bs (nat_of_int !sdepth) b with
+            else begin
+            (* the hypothesis of the closed search theorems (Closed.C07_closed, C08_closed, C09_closed) *)
+            if not (soundb tbl rk bs (nat_of_int !sdepth) b) then
+              spec_fail (Printf.sprintf "DOMAIN soundb %d (search invariant Reach.Sound of the closed theorems) is false in [%s]: compared with the oracle all the same" !sdepth (snap_of b));
+            (* depth >= 4: full-window alpha-beta per root move, equal to the plain minimax list by
+               Closed.root_values_ab_eq (pinned in props/C08.v); below that the plain minimax itself *)
+            let rv = if !sdepth >= 4 then root_values_ab tbl rk bs (nat_of_int !sdepth) b
+                     else root_values tbl rk bs (nat_of_int !sdepth) b in
+            match rv with
               | Ok [] -> tag ^ " Err NoAvailableMoves"
               | Ok vs ->
                   let vals = List.map (fun (_, v) -> int_of_z v) vs in
@@ -411,7 +420,8 @@ let exec (op : string) : unit =
                   let att = List.filter (fun (_, v) -> int_of_z v = best) vs in
                   Printf.sprintf "%s Ok %d {%s} {%s}" tag best (String.concat " " (List.sort compare (List.map (fun (m, _) -> mv_text m) att)))
                     (String.concat " " (List.sort compare (List.map (fun (m, _) -> mv_text m) vs)))
-              | _ -> "PANIC")
+              | _ -> "PANIC"
+            end)
     | "perft" :: d :: _ ->
         with_board (fun b ->
             let d = int_of_string d in
